@@ -6,7 +6,7 @@ from ..gen import ev_tok, AUTHORS
 from ..storecheck import HistGen
 from ..conc import forced, STORE_POINTS
 
-THEOREMS = ['id_marker_permanent', 'address_time_monotone', 'marked_id_refused', 'marked_id_refused_forever', 'covered_by_address_refused', 'covered_by_address_refused_forever', 'newer_not_refused', 'covered_unretrievable', 'accepted_marks_ids', 'accepted_marks_addresses', 'address_text_marked']
+THEOREMS = ['id_marker_permanent', 'address_time_monotone', 'marked_id_refused', 'marked_id_refused_forever', 'covered_by_address_refused', 'covered_by_address_refused_forever', 'newer_not_refused', 'covered_unretrievable', 'accepted_marks_ids', 'accepted_marks_addresses', 'address_text_marked', 'spec_covered']
 
 
 def races(c, runner):
